@@ -36,10 +36,37 @@ def run_kani_for(root, pid, specs, tier, seed, work):
     scratch = tempfile.mkdtemp(prefix="verif-kani-%s-" % pid, dir="/tmp")
     try:
         subprocess.run(["rsync", "-a", "--exclude", "target", "--exclude", ".git", REPO + "/", scratch + "/"], check=True)
-        mods = sorted(set(s["module"] for s in sel))
+        mods = sorted(set(s["module"] for s in sel if not s.get("cut")))
         for m in mods:
             with open(os.path.join(scratch, "src", m + ".rs"), "a") as f:
                 f.write('\n#[cfg(kani)]\n#[path = "%s/kani/%s_harness.rs"]\nmod verif_kani;\n' % (root, m))
+        # statement cuts (R10): render the harness from the statement text that mtx extracts from /repo on this run
+        for sp in sel:
+            c = sp.get("cut")
+            if not c:
+                continue
+            mapf = os.path.join(work, "cut-%s.map.json" % c["name"])
+            rc0 = subprocess.run([os.path.join(root, "mtx/target/release/mtx"), os.path.join(root, "contracts/units", c["unit"] + ".vspec"), "--repo", REPO,
+                                  "--out", os.path.join(work, "cut-%s.rs" % c["name"]), "--map", mapf, "--contracts", os.path.join(root, "contracts")],
+                                 stdout=subprocess.PIPE, stderr=subprocess.PIPE)
+            stmt = None
+            if rc0.returncode == 0:
+                for it in json.load(open(mapf)).get("items", []):
+                    for cc in it.get("cuts", []):
+                        if cc.get("name") == c["name"]:
+                            stmt = cc["statement"]
+            if stmt is None:
+                out["harnesses"].append({"harness": sp["harness"], "module": sp["module"], "status": "undecided", "reason": "lost anchor: statement cut %s not found (%s)" % (c["name"], rc0.stderr.decode()[:200])})
+                sp["_skip"] = True
+                continue
+            tmpl = open(os.path.join(root, c["template"])).read().replace("@STATEMENT@", stmt)
+            hp = os.path.join(scratch, "verif_cut_%s.rs" % c["name"])
+            open(hp, "w").write(tmpl)
+            with open(os.path.join(scratch, "src", sp["module"] + ".rs"), "a") as f:
+                f.write('\n#[cfg(kani)]\n#[path = "%s"]\nmod verif_kani_cut_%s;\n' % (hp, c["name"]))
+        sel = [x for x in sel if not x.get("_skip")]
+        if not sel:
+            return out
         env = dict(os.environ)
         env["CARGO_NET_OFFLINE"] = "true"
         env["CARGO_TARGET_DIR"] = os.path.join(scratch, "target")
